@@ -1,39 +1,74 @@
 ------------------------------ MODULE AppScanObs ------------------------------
-(* Seam-level behaviour of an application scan: real GenericEngine + resultChan + startScanEngine *)
-(* + logger, observed through a recording RequestGenerator, Scanner, Logger and io.Writer.        *)
+(* Seam-level behaviour of an application scan (socks / docker / elastic):        *)
+(*   RequestGenerator -> W x GenericEngine.worker { [limiter.Take] Scanner.Scan } *)
+(*   -> resultChan (two stages) -> logger.LogResults -> io.Writer ;               *)
+(*   errors -> errc -> runner -> logger.Error ; startScanEngine returns.          *)
+(* Observed through a recording RequestGenerator, Limiter, Scanner, Logger and    *)
+(* io.Writer around the real GenericEngine, resultChan, startScanEngine, logger.  *)
 EXTENDS Integers, FiniteSets, Sequences
-CONSTANTS R, W
+CONSTANTS R
 Id == 1..R
-VARIABLES total, gen, kind, scan, printed, errs, done, returned, cancelled, exact
-avars == <<total, gen, kind, scan, printed, errs, done, returned, cancelled, exact>>
-AInit == /\ total = R /\ gen = 0 /\ kind = [i \in Id |-> "none"] /\ scan = [i \in Id |-> "none"]
-         /\ printed = {} /\ errs = {} /\ done = FALSE /\ returned = FALSE /\ cancelled = FALSE /\ exact = TRUE
-AReset(n, ex) == /\ total' = n /\ gen' = 0 /\ kind' = [i \in Id |-> "none"] /\ scan' = [i \in Id |-> "none"]
-                 /\ printed' = {} /\ errs' = {} /\ done' = FALSE /\ returned' = FALSE /\ cancelled' = FALSE /\ exact' = ex
-Gen(i, k) == /\ i = gen + 1 /\ i <= total /\ gen' = i /\ kind' = [kind EXCEPT ![i] = k]
-             /\ UNCHANGED <<total, scan, printed, errs, done, returned, cancelled, exact>>
-ScanBegin(i) == /\ i <= gen /\ kind[i] # "reqerr" /\ scan[i] = "none" /\ ~done            \* exactly one worker, exactly once, never after done
-                /\ Cardinality({j \in Id : scan[j] = "busy"}) < W
-                /\ scan' = [scan EXCEPT ![i] = "busy"]
-                /\ UNCHANGED <<total, gen, kind, printed, errs, done, returned, cancelled, exact>>
-ScanEnd(i, o) == /\ scan[i] = "busy" /\ o = kind[i] /\ scan' = [scan EXCEPT ![i] = o]
-                 /\ UNCHANGED <<total, gen, kind, printed, errs, done, returned, cancelled, exact>>
-Line(i) == /\ scan[i] = "hit" /\ i \notin printed /\ ~returned /\ printed' = printed \cup {i}
-           /\ UNCHANGED <<total, gen, kind, scan, errs, done, returned, cancelled, exact>>
-ErrLogged(i) == /\ i <= gen /\ (kind[i] = "reqerr" \/ scan[i] = "fail") /\ i \notin errs /\ ~returned /\ errs' = errs \cup {i}
-                /\ UNCHANGED <<total, gen, kind, scan, printed, done, returned, cancelled, exact>>
-Settled == gen = total /\ \A i \in 1..total : kind[i] = "reqerr" \/ scan[i] \in {"hit", "miss", "fail"}
-DoneSeen == /\ ~done /\ (\A j \in Id : scan[j] # "busy") /\ (cancelled \/ Settled) /\ done' = TRUE
-            /\ UNCHANGED <<total, gen, kind, scan, printed, errs, returned, cancelled, exact>>
-\* the scan call returns: after done; if it was not cancelled from outside (and the exit delay was long enough: `exact`)
-\* every hit has been printed and every failure logged
-Returned == /\ done /\ ~returned /\ returned' = TRUE
-            /\ (~cancelled /\ exact) => /\ printed = {i \in 1..total : scan[i] = "hit"}
-                                        /\ errs = {i \in 1..total : kind[i] = "reqerr" \/ scan[i] = "fail"}
-            /\ UNCHANGED <<total, gen, kind, scan, printed, errs, done, cancelled, exact>>
-Cancel == /\ ~cancelled /\ cancelled' = TRUE /\ UNCHANGED <<total, gen, kind, scan, printed, errs, done, returned, exact>>
-ANext == \/ \E i \in Id, k \in {"hit", "miss", "fail", "reqerr"} : Gen(i, k) \/ ScanEnd(i, k)
+Kind == {"hit", "miss", "fail", "reqerr"}
+VARIABLES total, nw,
+          gen,                         \* requests generated so far
+          kHit, kMiss, kFail, kReqErr, \* what each generated request is (decided by the environment)
+          busy,                        \* probes in progress
+          ended,                       \* probes that have returned
+          printed,                     \* ids with an output line
+          errs,                        \* ids with a logged error
+          done, returned, cancelled,
+          exact,                       \* the exit delay is long enough for the logger to drain (C08's proviso)
+          limited, charged
+avars == <<total, nw, gen, kHit, kMiss, kFail, kReqErr, busy, ended, printed, errs, done, returned, cancelled, exact, limited, charged>>
+
+AInitRun(n, w, ex, lim) ==
+    /\ total = n /\ nw = w /\ gen = 0 /\ kHit = {} /\ kMiss = {} /\ kFail = {} /\ kReqErr = {}
+    /\ busy = {} /\ ended = {} /\ printed = {} /\ errs = {}
+    /\ done = FALSE /\ returned = FALSE /\ cancelled = FALSE /\ exact = ex /\ limited = lim /\ charged = 0
+AInit == \E w \in 1..R : AInitRun(R, w, TRUE, FALSE)
+
+Gen(i, k) == /\ i = gen + 1 /\ i <= total /\ gen' = i
+             /\ kHit' = IF k = "hit" THEN kHit \cup {i} ELSE kHit
+             /\ kMiss' = IF k = "miss" THEN kMiss \cup {i} ELSE kMiss
+             /\ kFail' = IF k = "fail" THEN kFail \cup {i} ELSE kFail
+             /\ kReqErr' = IF k = "reqerr" THEN kReqErr \cup {i} ELSE kReqErr
+             /\ UNCHANGED <<total, nw, busy, ended, printed, errs, done, returned, cancelled, exact, limited, charged>>
+\* the limiter is charged once per probe started, before it starts
+Take == /\ limited /\ charged < nw /\ charged' = charged + 1
+        /\ UNCHANGED <<total, nw, gen, kHit, kMiss, kFail, kReqErr, busy, ended, printed, errs, done, returned, cancelled, exact, limited>>
+\* every generated target is probed at most once, by one of W workers, never an error request, never after completion
+ScanBegin(i) == /\ i <= gen /\ i \notin kReqErr /\ i \notin (busy \cup ended) /\ ~done /\ ~returned
+                /\ Cardinality(busy) < nw
+                /\ (limited => charged > 0) /\ charged' = IF limited THEN charged - 1 ELSE charged
+                /\ busy' = busy \cup {i}
+                /\ UNCHANGED <<total, nw, gen, kHit, kMiss, kFail, kReqErr, ended, printed, errs, done, returned, cancelled, exact, limited>>
+KindOf(i) == IF i \in kHit THEN "hit" ELSE IF i \in kMiss THEN "miss" ELSE IF i \in kFail THEN "fail" ELSE "reqerr"
+ScanEnd(i, o) == /\ i \in busy /\ o = KindOf(i) /\ busy' = busy \ {i} /\ ended' = ended \cup {i}
+                 /\ UNCHANGED <<total, nw, gen, kHit, kMiss, kFail, kReqErr, printed, errs, done, returned, cancelled, exact, limited, charged>>
+\* one output line per detected service, only for probes that detected one, never after the scan call returned
+Line(i) == /\ i \in ended /\ i \in kHit /\ i \notin printed /\ ~returned /\ printed' = printed \cup {i}
+           /\ UNCHANGED <<total, nw, gen, kHit, kMiss, kFail, kReqErr, busy, ended, errs, done, returned, cancelled, exact, limited, charged>>
+\* one error record per failed probe and per error request
+ErrLogged(i) == /\ i <= gen /\ (i \in kReqErr \/ (i \in ended /\ i \in kFail)) /\ i \notin errs /\ ~returned
+                /\ errs' = errs \cup {i}
+                /\ UNCHANGED <<total, nw, gen, kHit, kMiss, kFail, kReqErr, busy, ended, printed, done, returned, cancelled, exact, limited, charged>>
+Settled == gen = total /\ (1..total) \subseteq (kReqErr \cup ended)
+\* completion is signalled only after all probes have finished
+DoneSeen == /\ ~done /\ busy = {} /\ (cancelled \/ Settled) /\ done' = TRUE
+            /\ UNCHANGED <<total, nw, gen, kHit, kMiss, kFail, kReqErr, busy, ended, printed, errs, returned, cancelled, exact, limited, charged>>
+\* the scan call returns: no probe in flight; if it was not cancelled from outside (and the exit delay was long
+\* enough) every detected service has been printed and every failure logged
+Returned == /\ ~returned /\ busy = {} /\ (cancelled \/ Settled) /\ returned' = TRUE
+            /\ ((~cancelled /\ exact) => (printed = kHit /\ errs = kReqErr \cup kFail))
+            /\ UNCHANGED <<total, nw, gen, kHit, kMiss, kFail, kReqErr, busy, ended, printed, errs, done, cancelled, exact, limited, charged>>
+Cancel == /\ ~cancelled /\ cancelled' = TRUE
+          /\ UNCHANGED <<total, nw, gen, kHit, kMiss, kFail, kReqErr, busy, ended, printed, errs, done, returned, exact, limited, charged>>
+ANext == \/ \E i \in Id, k \in Kind : Gen(i, k) \/ ScanEnd(i, k)
          \/ \E i \in Id : ScanBegin(i) \/ Line(i) \/ ErrLogged(i)
-         \/ DoneSeen \/ Returned \/ Cancel
+         \/ DoneSeen \/ Returned \/ Cancel \/ Take
 ASpec == AInit /\ [][ANext]_avars
+(* C08 on observable state *)
+OnlyHitsPrinted == printed \subseteq (kHit \cap ended)
+OnlyFailuresLogged == errs \subseteq (kReqErr \cup (kFail \cap ended))
+ExactAtReturn == (returned /\ ~cancelled /\ exact) => (printed = kHit /\ errs = kReqErr \cup kFail /\ ended = (1..total) \ kReqErr)
 ===============================================================================
